@@ -49,6 +49,7 @@ MODULES = [
     'wpull.scraper.javascript',
     'wpull.scraper.html',
     'wpull.scraper.sitemap',
+    'wpull.writer',
     'wpull.processor.base',
     'wpull.processor.rule',
     'wpull.processor.web',
@@ -89,7 +90,6 @@ ENTRIES = {
         ('wpull.scraper.css', 'CSSScraper', 'scrape', None),
         ('wpull.scraper.javascript', 'JavaScriptScraper', 'scrape', None),
         ('wpull.scraper.sitemap', 'SitemapScraper', 'scrape', None),
-        ('wpull.protocol.ftp.util', None, 'parse_address', None),
     ],
 }
 
@@ -136,6 +136,7 @@ PRIMS = {
     'next': (['builtins.StopIteration'], 'next(it) without default'),
     'datetime': ([VE], 'datetime.datetime(...) / .replace(...) with out-of-range fields (arguments are ints of at most 4 digits here, so no OverflowError)'),
     'json_loads': ([VE], 'json.loads'),
+    'mktime': ([VE, 'builtins.OverflowError'], 'time.mktime of a time tuple: out-of-range dates (None is excluded by the caller, see SAFE note in writer.set_timestamp)'),
     'net_task': (['builtins.OSError', 'builtins.AttributeError', 'tornado.netutil.SSLCertificateError'],
                  'awaiting an asyncio stream operation (read / drain / open_connection): socket and TLS errors, '
                  'asyncio.TimeoutError, AttributeError on a transport torn down underneath'),
@@ -186,7 +187,12 @@ EXT_FUNCS = {
     'io.BytesIO': PURE, 'io.StringIO': PURE, 'io.TextIOWrapper': 'prim:textio_wrap',
     'copy.deepcopy': PURE, 'copy.copy': PURE,
     'base64.b64encode': PURE,
-    'os.chmod': LOCAL, 'os.symlink': LOCAL, 'tempfile.NamedTemporaryFile': LOCAL, 'fnmatch.fnmatchcase': PURE, 'urllib.parse.quote': PURE,
+    'os.chmod': LOCAL, 'os.symlink': LOCAL, 'os.remove': LOCAL, 'os.rename': LOCAL, 'os.makedirs': LOCAL, 'os.utime': LOCAL, 'open': LOCAL,
+    'os.path.exists': PURE, 'os.path.isdir': PURE, 'os.path.split': PURE, 'os.path.getsize': LOCAL, 'os.path.getmtime': LOCAL, 'email.utils.formatdate': PURE, 'shutil.copyfileobj': LOCAL,
+    'time.time': PURE, 'time.mktime': 'prim:mktime', 'email.utils.parsedate': PURE,
+    'wpull.path.parse_content_disposition': PURE,       # regex search on the header value; indexes a non-empty match group
+    'wpull.path.anti_clobber_dir_path': LOCAL,
+'tempfile.NamedTemporaryFile': LOCAL, 'fnmatch.fnmatchcase': PURE, 'urllib.parse.quote': PURE,
     'posixpath.basename': PURE, 'posixpath.dirname': PURE, 'posixpath.join': PURE,
     'os.getcwd': PURE, 'os.strerror': PURE, 'os.path.join': PURE, 'os.path.dirname': PURE,
     'asyncio.sleep': PURE, 'asyncio.wait_for': ('consume_then', 'wait_for'), 'asyncio.open_connection': ('deferred', 'net_task'),
@@ -319,7 +325,7 @@ RECV_TYPES = {
     ('*', 'self._html_parser'): ['wpull.document.htmlparse.html5lib_:HTMLParser'],
     ('*', 'element.attrib'): ['ext:dict'],
     ('*', 'response.body'): ['ext:file'], ('*', 'self._response.body'): ['ext:file'], ('*', 'request.body'): ['ext:file'],
-    ('*', 'file'): ['ext:file'], ('*', 'content_file'): ['ext:file'],
+    ('*', 'file'): ['ext:file'], ('*', 'content_file'): ['ext:file'], ('*', 'new_file'): ['ext:file'],
     ('*', '_logger'): ['ext:logger'],
     ('*', 'self.event_dispatcher'): ['ext:local'],
     ('*', 'self._connection_pool'): ['ext:pool'],
@@ -375,7 +381,7 @@ RECV_TYPES = {
     ('*', 'self._web_client_session'): ['wpull.protocol.http.web:WebSession'],
     ('*', 'self._item_session'): ['ext:local'],         # ItemSession: URL table rows of this item (local database)
     ('*', 'item_session'): ['ext:local'],
-    ('*', 'self._file_writer_session'): ['ext:local'],  # file writer: local files
+    ('*', 'self._file_writer_session'): ['wpull.writer:BaseFileWriterSession'],   # reads server-controlled header fields
     ('*', 'self._robots_txt_checker'): ['wpull.protocol.http.robots:RobotsTxtChecker'],
     ('*', 'self._document_scraper'): ['wpull.scraper.base:DemuxDocumentScraper'],
     ('*', 'self._processor.web_client'): ['wpull.protocol.http.web:WebClient'],
@@ -383,6 +389,7 @@ RECV_TYPES = {
     ('*', 'self._processor.ftp_client'): ['wpull.protocol.ftp.client:Client'],
     ('*', 'self._processor.ftp_client.session()'): ['wpull.protocol.ftp.client:Session'],
     ('*', 'self._item_session.app_session.factory'): ['ext:dict'],
+    ('*', 'self._path_namer'): ['ext:local'],           # PathNamer: file name from an already parsed URL (total, C15)
     ('*', 'self._url_rewriter'): ['ext:local'],         # URLRewriter: local string rewriting of an already parsed URL
     ('*', 'self._item_session.url_record.url_info'): ['ext:urlinfo'],
     ('*', 'self._web_client_session.redirect_tracker'): ['wpull.protocol.http.redirect:RedirectTracker'],
@@ -422,6 +429,7 @@ CALLS = {
     ('*', 'self._session_class()'): LOCAL,
     ('*', "self._item_session.app_session.factory['WebClient'].request_factory"): ('ctor', 'wpull.protocol.http.request:Request'),
     ('*', 'self._fetch_rule.check_ftp_request'): ('method', 'wpull.processor.rule:FetchRule', 'check_generic_request'),   # class-level alias
+    ('wpull.writer:BaseFileWriterSession.save_headers', 'response.header'): PURE,   # --save-headers path (ill-typed as written: open('wb'), no header()); a local option, not server data
     ('*', 'self.parse_url'): PURE,                      # staticmethod(wpull.url.parse_url_or_log): catches ValueError, returns None
     # --- call sites that cannot fail for a local reason (ASSUMPTIONS, like SAFE_SITES)
     ('wpull.protocol.http.client:Session.start', 'int'): PURE,            # our own Content-Length header
@@ -457,6 +465,7 @@ WITH_TABLE = {
     ('*', 'wpull.util.reset_file_offset'): (None, None),           # seeks the local file back
     ('*', 'wpull.util.close_on_error'): (None, 'callarg0'),         # on error: call the close function, re-raise
     ('*', 'contextlib.closing'): (None, None),
+    ('*', 'open'): ('local', None),                                # a local file
     ('*', 'temp_file'): (None, None),                               # a local NamedTemporaryFile
     ('*', 'self._close_timer.with_timeout'): (None, None),
 }
@@ -508,7 +517,6 @@ SAFE_SITES = {
     ('wpull.network.connection:BaseConnection.connect', 'index', 'self._address[0]'): 'len(address) >= 2 asserted in __init__',
     ('wpull.network.connection:BaseConnection.connect', 'index', 'self._address[1]'): 'len(address) >= 2 asserted in __init__',
     ('wpull.network.connection:BaseConnection.port[get]', 'index', 'self._address[1]'): 'len(address) >= 2 asserted in __init__',
-    ('wpull.network.connection:BaseConnection.host[get]', 'index', 'self._address[0]'): 'len(address) >= 2 asserted in __init__',
     ('wpull.network.connection:BaseConnection.connect', 'unpack',
      "(self.reader, self.writer) = (yield from self.run_network_operation(connection_future, wait_timeout=self._connect_timeout, name='Connect'))"):
         'asyncio.open_connection returns (reader, writer)',
@@ -613,12 +621,12 @@ SAFE_SITES = {
     ('wpull.processor.ftp:FTPProcessorSession._fetch_parent_path', 'setattr', 'directory_request.url = directory_url'): 'an FTP URL rebuilt from the components of an already parsed URLInfo (ftp://host[:port]/dir/)',
     ('wpull.processor.ftp:FTPProcessorSession._prepare_request_file_vs_dir', 'setattr', 'request.url = append_slash_to_path_url(request.url_info)'): 'an FTP URL rebuilt from the components of an already parsed URLInfo (ftp://host[:port]/dir/)',
     ('wpull.processor.ftp:FTPProcessorSession._fetch_parent_path', 'setitem', 'self._processor.listing_cache[directory_url]'): 'the listing cache is a local LRU mapping',
+    ('wpull.protocol.ftp.request:Request.set_continue', 'assert', 'offset >= 0'): 'offset is os.path.getsize of a local file',
+    ('wpull.protocol.http.request:RawRequest.set_continue', 'assert', 'offset >= 0'): 'offset is os.path.getsize of a local file',
     # ---- scrapers
     ('wpull.scraper.base:BaseTextStreamScraper.iter_processed_links', 'index', 'item[1]'): 'iter_processed_text yields 2-tuples',
     ('wpull.scraper.base:BaseTextStreamScraper.iter_processed_links', 'index', 'item[0]'): 'iter_processed_text yields 2-tuples',
     ('wpull.scraper.base:ScrapeResult.link_contexts[get]', 'index', "self['link_contexts']"): 'set in __init__',
-    ('wpull.scraper.base:ScrapeResult.encoding[get]', 'index', "self['encoding']"): 'set in __init__',
-    ('wpull.scraper.base:ScrapeResult.linked[get]', 'index', "self['link_contexts']"): 'set in __init__',
     ('wpull.scraper.base:ScrapeResult.inline[get]', 'index', "self['link_contexts']"): 'set in __init__',
     ('wpull.scraper.javascript:JavaScriptScraper.scrape', 'unpack',
      'for (link, context) in self.iter_processed_links(response.body, encoding, base_url, context=True)'): 'context=True returns the (text, context) pairs',
